@@ -53,6 +53,7 @@ func runAst(op string) (out string) {
 	return "toks=" + strings.Join(toks, ",") + " idem=" + idemOne("INSERT INTO "+table+" (c) VALUES ("+text+")") +
 		" upd=" + idemOne("UPDATE "+table+" SET c = "+text+" WHERE k = 1") +
 		" whr=" + idemOne("UPDATE "+table+" SET c = ? WHERE k = "+text+" AND j IN (1, "+text+")") +
+		" del=" + idemOne("DELETE FROM "+table+" WHERE k >= "+text) +
 		" bat=" + idemOne("BEGIN BATCH INSERT INTO "+table+" (c) VALUES (1) USING TTL 5; INSERT INTO "+table+" (c) VALUES ("+text+") APPLY BATCH")
 }
 
